@@ -22,7 +22,7 @@ import threading
 
 import common
 
-KEY = {"buf": "buffer", "bio": "bufferedio", "srw": "streamreader", "sio": "streamable-io", "ice2": "icecast",
+KEY = {"buf": "buffer", "bio": "bufferedio", "srw": "streamreader", "sio": "streamable-io", "ice2": "icecast", "race": "icecast",
        "ssw": "streamable-source", "ice": "icecast"}
 COQKIND = {"buf": "KBuf", "bio": "KBio", "srw": "KSrw", "sio": "KSio", "ssw": "KSsw"}
 KNOWN_BYPASS = "C17:streamreader:bypass-stale-position"
@@ -1086,6 +1086,354 @@ def gen_ice2_case(rng, size, head, block, meta, exact):
             "len": audio, "ops": ops, "complete": True}
 
 
+# --------------------------------------------------------------------------- icecast, two threads on one buffer
+
+class Blocked(Exception):
+    """The party that is running needs _buffer_lock while the other party holds it."""
+
+
+class StopTurn(Exception):
+    pass
+
+
+def run_race(case):
+    """Explicit schedules for PatchedIceCastClient's two threads.
+
+    The buffer is a subclass of the real SemiSeekableBuffer whose mutable attributes (_buffer,
+    _position, _has_headroom_data, _protected) are properties: every load and store made by the real
+    methods is a scheduling point.  One TURN of the real download loop (one call of _download_stream cut at
+    the next waiting point; the loop carries no state from one iteration to the next) and one reader
+    operation are raced: the first party runs until its k-th access to the shared state, then the other party
+    runs completely, then the first finishes.  _buffer_lock is a proxy: a party that needs the lock while the
+    other holds it cannot run there; it runs as soon as the lock is released (what a blocked thread does).
+    Everything happens in one OS thread, so a schedule is exactly reproducible."""
+    A = audio_source()
+    from pyatv.support.buffer import SemiSeekableBuffer
+    import miniaudio
+    from pyatv.exceptions import InvalidStateError
+    block, size, head, prot, meta = case["block"], case["size"], case["head"], case["prot"], case["meta"]
+    names = ice2_body(case)
+    body = bytes(name_byte(n) for n in names)
+    caps = list(case["caps"])
+    st = {"q": 0, "ci": 0, "empties": 0, "calls": 0, "party": None, "holder": None, "arm": None,
+          "deferred": None, "log": None, "spin": False, "short": False, "quiet": False, "turn_added": False,
+          "race_result": None}
+    ops, obs, logs = [], [], []
+
+    def hook(attr, kind):
+        party = st["party"]
+        if party is None:
+            return
+        arm = st["arm"]
+        if arm is not None and arm["party"] == party and not arm["fired"]:
+            if arm["count"] == arm["k"]:
+                arm["fired"] = True
+                run_other(arm["nested"], "before %s %s of %s" % (kind, attr, party))
+            arm["count"] += 1
+        if st["log"] is not None:
+            st["log"].append("%s %s %s" % ("loop  " if party == "P" else "reader", kind, attr))
+
+    def shared(name):
+        key = "_v" + name
+
+        def fget(self):
+            hook(name, "load")
+            return self.__dict__[key]
+
+        def fset(self, value):
+            hook(name, "store")
+            self.__dict__[key] = value
+        return property(fget, fset)
+
+    class SteppedBuffer(SemiSeekableBuffer):
+        _buffer = shared("_buffer")
+        _position = shared("_position")
+        _has_headroom_data = shared("_has_headroom_data")
+        _protected = shared("_protected")
+
+    buf = SteppedBuffer(size, seekable_headroom=head, protected_headroom=prot)
+    cli = object.__new__(A.PatchedIceCastClient)
+    cli.url = "http://verif.invalid/stream"
+    cli.error_message = None
+    cli._stop_stream = False
+    cli._buffer = buf
+    cli.BLOCK_SIZE = block
+
+    def record(op, r):
+        party, st["party"] = st["party"], None
+        try:
+            if r[0] == "data":
+                r = ("data", rle([byte_name(b) for b in r[1]]))
+            ops.append(op)
+            obs.append({"res": r, "pos": buf.position, "size": buf.size, "rem": buf.remaining, "src": st["q"],
+                        "prot": bool(buf.protected_headroom), "stop": bool(cli._stop_stream), "spin": st["spin"],
+                        "short": st["short"]})
+        finally:
+            st["party"] = party
+
+    def run_other(fn, where):
+        """Run the other party's operation here; if it needs the lock we hold, it runs when we release it."""
+        outer = st["party"]
+        saved = (st["q"], st["ci"], st["empties"], st["short"], st["turn_added"])
+        if st["log"] is not None:
+            st["log"].append("-- switch %s" % where)
+        try:
+            fn()
+        except Blocked:
+            st["q"], st["ci"], st["empties"], st["short"], st["turn_added"] = saved
+            st["deferred"] = fn
+            if st["log"] is not None:
+                st["log"].append("-- blocked on _buffer_lock, switch back")
+        finally:
+            st["party"] = outer
+            if st["log"] is not None:
+                st["log"].append("-- back to %s" % ("loop" if outer == "P" else "reader"))
+
+    class Lock:
+        def __enter__(self):
+            p = st["party"]
+            if st["holder"] is not None and st["holder"] != p:
+                raise Blocked()
+            st["holder"] = p
+            if st["log"] is not None:
+                st["log"].append("%s acquire _buffer_lock" % ("loop  " if p == "P" else "reader"))
+            return self
+
+        def __exit__(self, *a):
+            p = st["party"]
+            st["holder"] = None
+            if st["log"] is not None:
+                st["log"].append("%s release _buffer_lock" % ("loop  " if p == "P" else "reader"))
+            if a[0] is None and st["deferred"] is not None:
+                fn, st["deferred"] = st["deferred"], None
+                run_other(fn, "after release of _buffer_lock")
+            return False
+
+    cli._buffer_lock = Lock()
+
+    class Raw:
+        headers = {"icy-metaint": str(meta)} if meta else {}
+
+        def read(self, n):
+            st["calls"] += 1
+            if st["calls"] > RAW_CALL_LIMIT:
+                raise ImplError("more than %d raw.read() calls" % RAW_CALL_LIMIT, None)
+            if st["turn_added"]:
+                raise StopTurn()                   # the next iteration of the loop would start here
+            k = min(n, len(body) - st["q"])
+            if k > 0:
+                cap = caps[st["ci"]] if st["ci"] < len(caps) else None
+                st["ci"] += 1
+                if cap is not None:
+                    if max(1, cap) < k:
+                        st["short"] = True
+                    k = min(k, max(1, cap))
+                st["empties"] = 0
+            else:
+                if st["ci"] < len(caps) and n > 0:
+                    st["ci"] += 1
+                st["empties"] += 1
+                if st["empties"] > SPIN_LIMIT:
+                    raise Spins()
+            d = body[st["q"]:st["q"] + k]
+            st["q"] += k
+            return d
+
+    class Handle:
+        status_code = 200
+        reason = "OK"
+        headers = Raw.headers
+
+        def __init__(self):
+            self.raw = Raw()
+
+        def __enter__(self):
+            return self
+
+        def __exit__(self, *a):
+            return False
+
+    class Requests:
+        @staticmethod
+        def get(url, stream=True, timeout=None):
+            return Handle()
+
+    class Time:
+        @staticmethod
+        def monotonic():
+            return 0.0
+
+        @staticmethod
+        def sleep(x):
+            if st["party"] == "C":
+                raise ImplError("read() waits although enough data is buffered or the stream has stopped", None)
+            raise StopTurn()                       # the block does not fit: the loop waits
+
+    def producer_turn():
+        """One pass of the download loop (nothing if the loop has ended or is stuck)."""
+        prev = st["party"]
+        if not (cli._stop_stream or st["spin"]):
+            st["party"] = "P"
+            st["turn_added"] = False
+            orig_add = buf.add
+
+            def add(data):
+                r = orig_add(data)
+                st["turn_added"] = True
+                return r
+            buf.__dict__["add"] = add
+            try:
+                cli._download_stream()
+            except StopTurn:
+                pass
+            except Spins:
+                st["spin"] = True
+            finally:
+                del buf.__dict__["add"]
+                st["party"] = prev
+        if not st["quiet"]:
+            record(("download",), ("none",))
+
+    def consumer_op(op):
+        prev = st["party"]
+        n = None
+        if op[0] == "read":
+            st["party"] = None
+            n = op[1] if cli._stop_stream else min(op[1], len(buf))
+        st["party"] = "C"
+        try:
+            if op[0] == "read":
+                done, r = ("read", n, None), ("data", bytes(cli.read(n)))
+            elif op[0] == "seek":
+                done, r = ("seek", op[1], True), ("bool", bool(cli.seek(op[1], miniaudio.SeekOrigin.START)))
+            else:
+                try:
+                    buf.protected_headroom = op[1]
+                    done, r = ("prot", op[1]), ("none",)
+                except InvalidStateError:
+                    done, r = ("prot", op[1]), ("raise",)
+        finally:
+            st["party"] = prev
+        if st["quiet"]:
+            st["race_result"] = (done, r)
+        else:
+            record(done, r)
+
+    def race(first, k, cop):
+        st["quiet"] = True
+        st["log"] = []
+        st["race_result"] = None
+        pt, co = producer_turn, (lambda: consumer_op(cop))
+        outer, nested = (pt, co) if first == "P" else (co, pt)
+        st["arm"] = {"party": first, "k": k, "count": 0, "fired": False, "nested": nested}
+        try:
+            outer()
+            if not st["arm"]["fired"]:
+                st["arm"]["fired"] = True
+                st["log"].append("-- %s finished before its access #%d: the other party runs afterwards" % (first, k))
+                nested()
+            if st["deferred"] is not None:           # never released the lock it was blocked on
+                raise ImplError("operation still blocked on _buffer_lock after the other party finished", None)
+        finally:
+            st["arm"] = None
+            st["quiet"] = False
+            log, st["log"] = st["log"], None
+        done, r = st["race_result"]
+        logs.append((len(ops), log))
+        record(("race", first, k, done), r)
+
+    old = (A.requests, A.time)
+    A.requests, A.time = Requests, Time
+    try:
+        for op in case["ops"]:
+            if op[0] == "download":
+                producer_turn()
+            elif op[0] == "race":
+                race(op[1], op[2], tuple(op[3]))
+            else:
+                consumer_op(op)
+    except ImplError:
+        raise
+    except Exception as ex:
+        raise ImplError("%s: %r after %d ops" % (type(ex).__name__, ex, len(ops)), ops)
+    finally:
+        A.requests, A.time = old
+    case["_schedules"] = logs
+    return ops, obs
+
+
+def flat_race_ops(ops):
+    """For the oracle a race record is the reader operation it contains."""
+    return [op[3] if op[0] == "race" else op for op in ops]
+
+
+def c_rop(op):
+    if op[0] == "race":
+        return "RRace (%s)" % c_iop2(op[3])
+    return "RPlain (%s)" % c_iop2(op)
+
+
+def coq_race_case(case, ops, obs):
+    return "(%s, %s, %s, %s, %s,\n  %s,\n  [%s],\n  [%s],\n  [%s])" % (
+        cnum(case["block"]), cnum(case["meta"]), cnum(case["size"]), cnum(case["head"]), common.cbool(case["prot"]),
+        c_data(rle(ice2_body(case))), "; ".join(c_optN(x) for x in case["caps"]),
+        "; ".join(c_rop(o) for o in ops), "; ".join(c_obs2(o) for o in obs))
+
+
+RACE_CONFIGS = [(8, 2, 2), (8, 4, 3), (16, 4, 4)]
+RACE_PREFIXES = [
+    [],                                                           # nothing buffered yet
+    [("download",), ("download",)],                               # data buffered, nothing read
+    [("download",), ("download",), ("read", 1)],                  # inside the headroom
+    [("download",), ("download",), ("download",), ("read", 5)],   # headroom crossed (discarded when unprotected)
+]
+
+
+RACE_COPS = [("read", 1), ("read", 3), ("read", 16), ("seek", 0), ("seek", 1)]
+
+
+def race_cases(kmax, cops):
+    """One download turn raced with one reader operation at every scheduling point, from several states."""
+    for (size, head, block) in RACE_CONFIGS:
+        for prot in (False, True):
+            for prefix in RACE_PREFIXES:
+                for first in ("P", "C"):
+                    for k in range(7 if first == "P" else kmax):    # a loop turn makes 4-5 accesses, a get() up to 17
+                        for cop in cops:
+                            ops = list(prefix) + [("race", first, k, cop)]
+                            ops += [("seek", 0), ("prot", False)]
+                            for _ in range(40 // block + 4):
+                                ops += [("download",), ("read", size)]
+                            ops += [("read", size)]
+                            yield {"kind": "race", "size": size, "head": head, "prot": prot, "block": block, "meta": 0,
+                                   "audio": 40, "metas": [0], "caps": [], "cut_after_audio": False, "len": 40,
+                                   "ops": ops, "complete": True}
+
+
+def gen_race_case(rng, size, head, block):
+    """Random history in which several turns of the loop are raced with reader operations."""
+    audio = rng.randint(block, 60)
+    ops = []
+    for _ in range(rng.randint(2, 12)):
+        r = rng.random()
+        cop = rng.choice([("read", 1), ("read", rng.randint(1, size)), ("read", size), ("seek", 0),
+                          ("seek", rng.randint(0, size)), ("prot", rng.random() < 0.4)])
+        if r < 0.55:
+            ops.append(("race", rng.choice("PC"), rng.randint(0, 14), cop))
+        elif r < 0.8:
+            ops.append(("download",))
+        else:
+            ops.append(cop)
+    ops += [("seek", 0), ("prot", False)]
+    ncaps = rng.randint(0, 20)
+    for _ in range(audio // block + 6 + ncaps):
+        ops += [("download",), ("read", size)]
+    ops += [("read", size)]
+    return {"kind": "race", "size": size, "head": head, "prot": rng.random() < 0.5, "block": block, "meta": 0,
+            "audio": audio, "metas": [0], "caps": [rng.choice([None, 1, 2]) for _ in range(ncaps)],
+            "cut_after_audio": False, "len": audio, "ops": ops, "complete": True}
+
+
 # --------------------------------------------------------------------------- generation
 
 SMALL = [(2, 1), (2, 2), (3, 1), (3, 2), (3, 3), (4, 2), (5, 3), (8, 4), (8, 8), (16, 4), (16, 16), (7, 1)]
@@ -1197,11 +1545,21 @@ def exhaustive_cases(kind, size, head, prot, maxlen):
 
 # --------------------------------------------------------------------------- evaluation
 
+def judge(case, ops, obs):
+    if case["kind"] == "ice2":
+        return oracle_ice2(case, ops, obs)
+    if case["kind"] == "race":
+        return oracle_ice2(case, flat_race_ops(ops), obs)
+    return oracle(case, ops, obs)
+
+
 def run_any(case):
     if case["kind"] == "ice":
         return run_ice(case)
     if case["kind"] == "ice2":
         return run_ice2(case)
+    if case["kind"] == "race":
+        return run_race(case)
     return run_impl(case)
 
 
@@ -1220,6 +1578,7 @@ def evaluate(ctx, case, origin, coq_items):
     finally:
         signal.setitimer(signal.ITIMER_REAL, 0)
         signal.signal(signal.SIGALRM, old)
+    schedules = case.pop("_schedules", None)
     ctx.count("kind:" + case["kind"])
     ctx.count("origin:" + origin)
     if obs is None:
@@ -1227,9 +1586,11 @@ def evaluate(ctx, case, origin, coq_items):
         coq_items.append((case, ops, obs))
         ctx.case(("ctor", case["size"], case["head"]), nontrivial=False)
         return
-    err = oracle_ice2(case, ops, obs) if case["kind"] == "ice2" else oracle(case, ops, obs)
+    err = judge(case, ops, obs)
     if err:
         key, msg, idx = err
+        if case["kind"] == "race":
+            msg += "; schedule of the first race: " + "; ".join((schedules or [(0, [])])[0][1])
         ctx.violation(key, msg, {"case": case, "ops_executed": ops, "failing_op": idx,
                                  "observed": [o["res"] for o in obs[max(0, idx - 3):idx + 1]]})
         ctx.count("oracle:" + key)
@@ -1259,12 +1620,14 @@ def coq_compare(ctx, all_items, per=700):
     hdr = ("From Coq Require Import List NArith. Import ListNotations.\n"
            "From PV Require Import Common.Cases C17.Model.\nLocal Open Scope N_scope.\n")
     fams = [
-        ([c for c in all_items if c[0]["kind"] not in ("ice", "ice2")], coq_case, "check_case",
+        ([c for c in all_items if c[0]["kind"] not in ("ice", "ice2", "race")], coq_case, "check_case",
          "kind * N * N * bool * N * list op * list obs", per),
         ([c for c in all_items if c[0]["kind"] == "ice"], coq_ice_case, "check_ice",
          "N * N * N * bool * N * list iop * list obs", per),
         ([c for c in all_items if c[0]["kind"] == "ice2"], coq_ice2_case, "check_ice2",
          "N * N * N * N * bool * data * list (option N) * list iop * list obs2", 120),
+        ([c for c in all_items if c[0]["kind"] == "race"], coq_race_case, "check_race",
+         "N * N * N * N * bool * data * list (option N) * list rop * list obs2", 150),
     ]
     coq_items = []
     for fam, printer, fn, ty, n in fams:
@@ -1344,6 +1707,12 @@ def run(ctx):
         else:                # icy-metaint with short reads (recorded findings)
             case = gen_ice2_case(rng, size, head, block, rng.choice([2, block - 1, block, block]) or 1, exact=False)
         evaluate(ctx, case, "generated", coq_items)
+    # 6. two threads on one buffer: one turn of the download loop raced with one reader operation at every
+    #    scheduling point (every load/store of the buffer's mutable attributes), from several buffer states
+    for case in race_cases(20, RACE_COPS if ctx.thorough else RACE_COPS[:4]):
+        evaluate(ctx, case, "exhaustive", coq_items)
+    for j in range(120 * mult):
+        evaluate(ctx, gen_race_case(rng, *RACE_CONFIGS[j % len(RACE_CONFIGS)]), "generated", coq_items)
     # constructor guard
     for (size, head) in ((1, 2), (0, 1), (4, 5)):
         evaluate(ctx, {"kind": "buf", "size": size, "head": head, "prot": False, "len": 0, "ops": []}, "ctor", coq_items)
@@ -1357,7 +1726,9 @@ def run(ctx):
                 "interleavings of download iterations and read/seek/protect for 7 (size, headroom, BLOCK_SIZE) triples up "
                 "to production, with and without icy-metaint; the real _download_stream on finite bodies (<= 200 audio bytes) "
                 "served with scripted short reads (1 byte, n-1, exact), with/without icy-metaint, empty and 16-byte metadata "
-                "blocks, bodies ending on and off a frame boundary; non-trivial = at least one byte was returned; "
+                "blocks, bodies ending on and off a frame boundary; explicit two-party schedules: one turn of the real download "
+                "loop raced with read/seek at every load/store of the shared buffer attributes (both nesting orders, 3 buffer "
+                "configurations x protected x 4 states), outcome compared with the two serial orders; non-trivial = at least one byte was returned; "
                 "distinct by (kind, sizes, executed history)"
                 % (maxlen, len(SMALL) + len(MEDIUM) + len(LARGE)))
     coq_compare(ctx, coq_items)
@@ -1370,6 +1741,10 @@ def run(ctx):
         "asyncio.StreamReader served by an event loop in another thread",
         "PatchedIceCastClient driven without its thread: requests.get and time.sleep/monotonic inside audio_source are "
         "replaced, the download loop and the reader are interleaved deterministically at the loop's two waiting points; "
+        "two-thread schedules are executed in one OS thread: the buffer under test is a subclass of the real "
+        "SemiSeekableBuffer whose four mutable attributes are properties (scheduling points), _buffer_lock is a proxy "
+        "(a party that would block runs when the lock is released), one loop turn = one call of _download_stream cut at "
+        "its next waiting point; schedules have one preemption (first party runs k accesses, the other runs completely)",
         "ICY metadata blocks are empty (length byte 0) in the production-size interleavings; the detailed producer "
         "runs name every body byte by its wire value (audio 16+offset, length byte < 16, metadata 240+i) so that a "
         "length or metadata byte reaching the reader is recognised; the fake raw.read raises after 40 consecutive "
@@ -1416,13 +1791,17 @@ def replay(ctx, path):
         return 0
     print("%s size=%d headroom=%d protected=%s source_len=%d%s" % (
         KEY[case["kind"]], case["size"], case["head"], case["prot"], case["len"],
-        " BLOCK_SIZE=%d icy-metaint=%d" % (case["block"], case["meta"]) if case["kind"] in ("ice", "ice2") else ""))
-    if case["kind"] == "ice2":
+        " BLOCK_SIZE=%d icy-metaint=%d" % (case["block"], case["meta"]) if case["kind"] in ("ice", "ice2", "race") else ""))
+    if case["kind"] in ("ice2", "race"):
         print("  body (0..: audio offset, 1000+v: length byte, 2000+i: metadata): %r  short-read script: %r"
               % (rle(ice2_body(case)), case["caps"]))
     for op, ob in zip(ops, obs):
         print("  %-28s -> %-40s position=%d size=%d remaining=%d taken-from-source=%d" % (
             op, ob["res"][1:] if len(ob["res"]) > 1 else ob["res"][0], ob["pos"], ob["size"], ob["rem"], ob["src"]))
-    err = oracle_ice2(case, ops, obs) if case["kind"] == "ice2" else oracle(case, ops, obs)
+    err = judge(case, ops, obs)
+    for (idx, log) in case.get("_schedules", []):
+        print("  schedule of the race at op %d:" % idx)
+        for line in log:
+            print("      " + line)
     print("property-error=%s" % (err,))
     return 1 if err else 0
